@@ -8,11 +8,12 @@ Definition optvals_eqb (a b : option (list value)) : bool :=
   | None, None => true
   | _, _ => false end.
 
-Definition fields_ok (got : list fname) (want : list string) : bool :=
-  list_eqb String.eqb (map render got) want.
+(* None = the field names of this configuration are compared in another case *)
+Definition fields_ok (got : list fname) (want : option (list string)) : bool :=
+  match want with Some w => list_eqb String.eqb (map render got) w | None => true end.
 
 (* regular system: (cfg, op, real field names, real value list or None when the generator raised) *)
-Definition chk_regular (c : config * sop * list string * option (list value)) : bool :=
+Definition chk_regular (c : config * sop * option (list string) * option (list value)) : bool :=
   match c with
   | (cfg, op, fs, vs) =>
       fields_ok (setup_fields cfg) fs
@@ -20,3 +21,47 @@ Definition chk_regular (c : config * sop * list string * option (list value)) : 
   end.
 
 Definition chk_len (c : ekind * nat) : bool := Nat.eqb (std_len (fst c)) (snd c).
+
+(* ---- accelerators ------------------------------------------------------------------------------ *)
+From Snax Require Import Model.C08Accels.
+
+(* xDMA: (cfg, op, body, real field names, real values) *)
+Definition chk_xdma (c : config * sop * xbody * option (list string) * option (list value)) : bool :=
+  match c with
+  | (cfg, op, b, fs, vs) =>
+      fields_ok (xdma_fields std_len cfg) fs
+      && optvals_eqb (option_map (map snd) (xdma_vals std_len cfg op b)) vs
+  end.
+
+Definition chk_alu (c : config * sop * option (list string) * option (list value)) : bool :=
+  match c with
+  | (cfg, op, fs, vs) =>
+      fields_ok (alu_fields cfg) fs && optvals_eqb (option_map (map snd) (alu_vals cfg op)) vs
+  end.
+
+(* gemmx: values are compared after evaluation; zp = (zp_a, zp_b) are the SSA zero points *)
+Definition gval_matches (zp : Z * Z) (g : gval) (v : value) : bool :=
+  let env := fun i => if Nat.eqb i 1000 then fst zp else if Nat.eqb i 1001 then snd zp else 0 in
+  match g, v with
+  | GOperand k, VOperand k' => Nat.eqb k k'
+  | GOperand _, _ => false
+  | _, VConst z => geval env g =? z
+  | _, _ => false
+  end.
+Definition chk_gemmx (c : config * Z * sop * gbody * (Z * Z) * option (list string) * option (list value)) : bool :=
+  match c with
+  | (cfg, n, op, gb, zp, fs, vs) =>
+      fields_ok (gemmx_fields cfg n) fs
+      && match gemmx_vals cfg n op gb, vs with
+         | Some l, Some r => list_eqb (fun a b => a) (map (fun _ => true) l) (map (fun _ => true) r)
+                             && forallb (fun gv => gval_matches zp (snd (fst gv)) (snd gv)) (combine l r)
+         | None, None => true
+         | _, _ => false
+         end
+  end.
+
+Definition hval_eqb (a b : hval) : bool :=
+  match a, b with
+  | HPtr x, HPtr y => Nat.eqb x y | HDim0, HDim0 => true | HOne, HOne => true | _, _ => false end.
+Definition chk_hwpe (c : list string * list hval) : bool :=
+  fields_ok hwpe_fields (Some (fst c)) && list_eqb hval_eqb (map snd hwpe_vals) (snd c).
